@@ -421,8 +421,12 @@ func (u *Universe) structSort(named *types.Named, st *types.Struct) Sort {
 	for i := 0; i < st.NumFields(); i++ {
 		f := st.Field(i)
 		fs := u.sortOf(f.Type())
+		acc := fmt.Sprintf("%s__%s", name, mangle(f.Name()))
+		if f.Name() == "_" {
+			acc = fmt.Sprintf("%s__blank%d", name, i)
+		}
 		info.fields = append(info.fields, structField{
-			name: f.Name(), acc: fmt.Sprintf("%s__%s", name, mangle(f.Name())), sort: fs, typ: f.Type(),
+			name: f.Name(), acc: acc, sort: fs, typ: f.Type(),
 		})
 	}
 	u.order = append(u.order, name)
